@@ -13,7 +13,8 @@ CONFIRM = True          # wall-clock bounds: a failure must repeat when the case
 BOUND_US = 500000       # 0.5 s for one Route.Dispatch; the unchanged tree stays below ~10 ms
 RULE = ("one case = a real carbon route (sendAllMatch / sendFirstMatch / consistentHashing) with real destinations against loopback endpoints: "
         "healthy, slow reader, absent (connection refused; also coming up later), black hole (accepts, never reads; 20 MB of traffic against 4 KB receive buffers), "
-        "closing between phases (up / down / up again) and closing under traffic, and a healthy sibling next to a black-holed destination; "
+        "closing between phases (up / down / up again) and closing under traffic, a healthy sibling next to a black-holed destination, and a spooling "
+        "destination whose 16 MB backlog from an outage is replayed into an endpoint that came back but never reads, with live traffic on top; "
         "connbuf 1..1000, iobuf 100..65536, 2k-20k lines per phase in bursts or paced. Measured: the slowest Route.Dispatch call, per steady phase "
         "handed = received + slow_conn (up) or = conn_down_no_spool (down), and the relay loop's own event marks (build tag verif), which are "
         "replayed through Model/Relay.v. non-trivial & distinct = distinct (scenario, sizes) with at least one drop or one outage")
@@ -27,11 +28,12 @@ def gen(rng, tier):
     k = 1 if tier == "quick" else 6
     for _ in range(k):
         for scen, n, size in [("healthy", 5000, 60), ("slow_reader", 4000, 60), ("absent", 3000, 60), ("absent_then_up", 2000, 60), ("blackhole", 20000, 1000),
-                              ("close_midstream", 2000, 60), ("close_under_traffic", 20000, 60), ("two_dests", 20000, 1000)]:
+                              ("close_midstream", 2000, 60), ("close_under_traffic", 20000, 60), ("two_dests", 20000, 1000),
+                              ("spool_backlog_blackhole", 2000, 8000)]:
             for route in (["sendAllMatch"] if tier == "quick" and scen not in ("healthy", "close_midstream") else
                           ["sendAllMatch", "sendFirstMatch", "consistentHashing"]):
                 cases.append({"scenario": scen, "route": route, "connbuf": rng.choice([1, 10, 100, 1000]), "iobuf": rng.choice([100, 4096, 65536]),
-                              "n": n if rng.random() < .7 else n // 2, "size": size,
+                              "n": n if rng.random() < .7 or scen == "spool_backlog_blackhole" else n // 2, "size": size,
                               "pace": rng.choice([0, 0, 50]) if scen != "close_under_traffic" else 50})
     return cases
 
